@@ -11,8 +11,8 @@ INVARIANTS = ["TypeOK", "Refines", "RowIndep", "TermsRefine", "Layout", "Untouch
 
 TIERS = {
     # constants of MC_HFModel per tier; emit = fraction of specifications printed for replay
-    "quick": dict(MaxPlace=2, MaxChan=2, BinChoices={1, 2}, NPts=2, Settings={1, 2, 3, 4}, Overrides={0, 2}, EmitMod=12),
-    "thorough": dict(MaxPlace=3, MaxChan=2, BinChoices={1, 2}, NPts=3, Settings={1, 2, 3, 4, 5, 6}, Overrides={0, 1, 2}, EmitMod=30),
+    "quick": dict(MaxPlace=2, MaxChan=2, MaxSamp=2, BinChoices={1, 2}, NPts=2, Settings={1, 2, 3, 4}, Overrides={0, 2}, EmitMod=12),
+    "thorough": dict(MaxPlace=3, MaxChan=2, MaxSamp=2, BinChoices={1, 2}, NPts=3, Settings={1, 2, 3, 4, 5, 6}, Overrides={0, 1, 2}, EmitMod=30),
 }
 
 WHAT = {
@@ -43,7 +43,8 @@ def tlc_sim(tier, sd):
     c = dict(TIERS[tier])
     c.pop("EmitMod")
     t = SIM[tier]
-    consts = dict(c, MaxPlace=t["MaxPlace"], EmitCases=True, EmitMod=1, EmitRes=0)
+    # the random walks also leave the exhaustive shape bound: 3 channels x 3 samples x up to 3 bins
+    consts = dict(c, MaxPlace=t["MaxPlace"], MaxChan=3, MaxSamp=3, BinChoices={1, 2, 3}, EmitCases=True, EmitMod=1, EmitRes=0)
     cfg = tlc.make_cfg(consts, invariants=INVARIANTS)
     return tlc.run("MC_HFModel", cfg, workers=4, simulate=f"num={t['num']}", depth=t["depth"], timeout=3600, tag=f"sim{sd}")
 
